@@ -291,6 +291,9 @@ func runCheck(repo, verif, prop, tier string, seed int, timeout time.Duration, s
 			}
 		}
 		if matched {
+			// an obligation recorded as an open finding is not part of the proof that is claimed: it is reported on its own
+			// (coverage.known_findings_hit) and not counted among the obligations of the proof
+			nObl--
 			continue
 		}
 		extra := map[string]interface{}{"pos": o.Pos, "note": o.Note, "status": o.Status, "smt_file_bytes": o.Bytes}
